@@ -404,6 +404,13 @@ pub fn checked_build(ctx: &Ctx, spec: &NodeSpec) -> BuildObs {
     let mut failures = Vec::new();
 
     let is_cli = matches!(spec.kind, NodeKind::Cli { .. });
+    let entry_names: Vec<String> = match &resolved.kind {
+        NodeKind::Api { calls } => calls
+            .iter()
+            .map(|c| format!("{}{}{}{}", c.entry, if c.out_dir.is_some() { "+out_dir" } else { "" }, if c.in_dir.is_some() { "+in_dir" } else { "" }, if c.cargo_conventions { "+cargo" } else if c.in_source_tree { "+in_source" } else { "" }))
+            .collect(),
+        NodeKind::Cli { args } => vec![format!("cli{}", if args.iter().any(|a| a == "-o" || a == "--out-dir") { "+o" } else { "" })],
+    };
     // ---- per-file invariants
     let mutated: Vec<(String, &crate::node::TraceLine)> = run
         .mutating()
@@ -416,9 +423,13 @@ pub fn checked_build(ctx: &Ctx, spec: &NodeSpec) -> BuildObs {
     // a file that goes wrong stops the call: files after it were never reached, and judging
     // them would only repeat the first failure under other names
     let mut call_first_failure_seen: BTreeSet<usize> = BTreeSet::new();
+    let mut after_first_failure: BTreeSet<String> = BTreeSet::new();
     for e in &exps {
         let nfail_before = failures.len();
         let judged = !call_first_failure_seen.contains(&e.call);
+        if !judged {
+            after_first_failure.insert(e.planned.spelled.clone());
+        }
         let p = &e.planned;
         let out_abs = root.join(&p.out_rel);
         let post_bytes = std::fs::read(&out_abs).ok();
@@ -442,6 +453,7 @@ pub fn checked_build(ctx: &Ctx, spec: &NodeSpec) -> BuildObs {
             if p.degenerate_stem {
                 v.push(("name", "stem-consists-only-of-dots".to_string()));
             }
+            v.push(("entry", entry_names[e.call].clone()));
             v.extend_from_slice(extra);
             v
         };
@@ -577,10 +589,13 @@ pub fn checked_build(ctx: &Ctx, spec: &NodeSpec) -> BuildObs {
                     if exps.iter().any(|e| e.call == ci && e.planned.degenerate_stem) {
                         fc.push(("name", "stem-consists-only-of-dots".to_string()));
                     }
-                    if is_cli {
-                        fc.push(("entry", "cli".into()));
-                    }
+                    fc.push(("entry", entry_names.get(ci).cloned().unwrap_or_default()));
                     fc.push(("files", first_bad(ci)));
+                    let words: Vec<String> = got
+                        .map(|r| r.msg.lines().last().unwrap_or("").split(|ch: char| !ch.is_ascii_alphabetic()).filter(|w| w.len() > 1).take(5).map(|w| w.to_ascii_lowercase()).collect())
+                        .unwrap_or_default();
+                    fc.push(("msg", words.join("-")));
+                    fc.push(("text", first_bad(ci).split('/').next().unwrap_or("-").to_string()));
                     let msg = got.map(|r| format!("{}: {}", r.status, r.msg.lines().last().unwrap_or(""))).unwrap_or_else(|| "no result".into());
                     failures.push(fail("ok-iff-all-built", "", format!("call {ci}: got [{msg}], expected failure={want_fail} ({why})"), &fc));
                 }
@@ -648,7 +663,7 @@ pub fn checked_build(ctx: &Ctx, spec: &NodeSpec) -> BuildObs {
                     continue;
                 }
                 let c = canon(&e.planned.spelled);
-                if e.planned.ws_name {
+                if e.planned.ws_name || after_first_failure.contains(&e.planned.spelled) {
                     optional.insert(c);
                 } else {
                     want.insert(c);
